@@ -439,7 +439,24 @@ func TestVerifC19(t *testing.T) {
 		}
 		return res
 	}
-	eps := map[string]func(string) string{"pe.match+validate": pePath, "dag.ParseTransaction": parseTx, "didweb.Resolve": web, "didkey.Resolve": key, "didjwk.Resolve": jwkR, "crypto.ParseJWT": parseJWT, "credential.vp": vpPath, "credential.vc": vcPath}
+	// pe.ParseEnvelope (first step of the OpenID4VP authorization response and of the s2s token request, before anything is verified)
+	// and what the handlers then read from the envelope
+	envelopePath := func(in string) string {
+		env, err := pe.ParseEnvelope([]byte(in))
+		if err != nil {
+			return "err"
+		}
+		for _, p := range env.Presentations {
+			credential.PresentationSigner(p)
+			credential.PresenterIsCredentialSubject(p)
+			credential.PresentationIssuanceDate(p)
+			credential.PresentationExpirationDate(p)
+			p.MarshalJSON()
+		}
+		env.MarshalJSON()
+		return "ok"
+	}
+	eps := map[string]func(string) string{"pe.ParseEnvelope": envelopePath, "pe.match+validate": pePath, "dag.ParseTransaction": parseTx, "didweb.Resolve": web, "didkey.Resolve": key, "didjwk.Resolve": jwkR, "crypto.ParseJWT": parseJWT, "credential.vp": vpPath, "credential.vc": vcPath}
 
 	replay, isReplay := c19ReadOps()
 	for _, op := range replay {
@@ -463,6 +480,50 @@ func TestVerifC19(t *testing.T) {
 		o.explore(ep, in, func() string { return fn(in) })
 		if ep == "didkey.Resolve" {
 			didKeyOp(in)
+		}
+	}
+
+	// ---- PEX envelopes: JWT presentations with every registered claim (and vp) present / absent / null / of another type, in combination;
+	// bare, as JSON string and inside arrays; not really signed (parsing comes first)
+	{
+		b64 := base64.RawURLEncoding
+		mkJWT := func(claims string) string {
+			return b64.EncodeToString([]byte(`{"alg":"ES256","typ":"JWT","kid":"did:nuts:holder#key-1"}`)) + "." + b64.EncodeToString([]byte(claims)) + "." + b64.EncodeToString(make([]byte, 64))
+		}
+		innerVP := `{"@context":["https://www.w3.org/2018/credentials/v1"],"type":["VerifiablePresentation"],"verifiableCredential":[]}`
+		vpVals := []string{"-", "null", "{}", innerVP, "[]", `"x"`, "5", "true", `{"verifiableCredential":null}`, `{"id":5,"type":null}`}
+		jtiVals := []string{"-", `"did:nuts:holder#1"`, "null", "5", `""`, `["a"]`, `{"a":1}`}
+		other := []string{``, `"iss":"did:nuts:holder","sub":"did:nuts:holder","aud":"v","nbf":1,"exp":4102444800,"iat":1,"nonce":"n",`, `"iss":null,"sub":null,"aud":null,"nbf":null,"exp":null,"iat":null,`, `"iss":5,"sub":[],"aud":{},"nbf":"x","exp":"y",`}
+		var jwts []string
+		for _, vp := range vpVals {
+			for _, jti := range jtiVals {
+				for oi, o := range other {
+					if oi > 1 && !(vp == "null" || vp == "-" || vp == innerVP) {
+						continue
+					}
+					c := "{" + o
+					if vp != "-" {
+						c += `"vp":` + vp + ","
+					}
+					if jti != "-" {
+						c += `"jti":` + jti + ","
+					}
+					c = strings.TrimSuffix(c, ",") + "}"
+					j := mkJWT(c)
+					jwts = append(jwts, j)
+					run("pe.ParseEnvelope", j, "jwt-claims")
+				}
+			}
+		}
+		for i := 0; i < len(jwts); i += 7 {
+			run("pe.ParseEnvelope", `"`+jwts[i]+`"`, "jwt-as-json-string")
+			run("pe.ParseEnvelope", `["`+jwts[i]+`"]`, "jwt-in-array")
+			run("pe.ParseEnvelope", `["`+jwts[i]+`",`+validVP()+`]`, "jwt-and-jsonld-in-array")
+		}
+		jsystematic([]byte(validVP()), func(b []byte, kind string) { run("pe.ParseEnvelope", string(b), kind) })
+		jsystematic([]byte(`{"iss":"did:nuts:holder","jti":"did:nuts:holder#1","nbf":1,"exp":4102444800,"vp":`+innerVP+`}`), func(b []byte, kind string) { run("pe.ParseEnvelope", mkJWT(string(b)), "jwt:"+kind) })
+		for _, sIn := range []string{"", " ", "[]", "[[]]", "[null]", "[5]", `[""]`, `""`, `"x"`, "a.b.c", "a.b", "{}", "null", "5", `{"type":"VerifiablePresentation"}`, "[" + validVP() + ",[]]"} {
+			run("pe.ParseEnvelope", sIn, "shape")
 		}
 	}
 
